@@ -194,7 +194,9 @@ Qed.
 
 Lemma vfs_destroy_wf s s' evs : wf s -> vfs_destroy s = (s', evs) -> wf s'.
 Proof.
-  intros [A B C D]. unfold vfs_destroy. destruct (v_init s); intros H; inversion H; subst; constructor; cbn; assumption.
+  intros [A B C D]. unfold vfs_destroy.
+  remember (sb_in_order 256 0 (v_sb s)) as bs eqn:Hbs. clear Hbs.
+  destruct (v_init s); intros H; inversion H; subst; constructor; cbn [v_next v_sb v_mps]; assumption.
 Qed.
 
 (* ---------- reachable states: any history of mounts (with or without a mapping), over-mounts,
